@@ -21,6 +21,8 @@ type IndexDef struct {
 	Name HexS   `json:"name"`
 	Key  KeyDef `json:"key"`
 	TP   bool   `json:"tp"`
+	// NoDefs: the request carries no attribute definitions for this index (UpdateTable only): the table must know them already
+	NoDefs bool `json:"noDefs,omitempty"`
 }
 
 type IndexChange struct {
